@@ -21,7 +21,7 @@ def ci(n, hi):
 
 # ---- catalogs ---------------------------------------------------------------------------------------
 
-def catalog(as_dicts=False, legacy_meta=False, default_ns=True, api=False, ts=False):
+def catalog(as_dicts=False, legacy_meta=False, default_ns=True, api=False, ts=False, target_form=0):
     """planner keyword arguments for one catalog *form* (same content, supplied differently)"""
     ints = ['int1', 'int2', 'files']
     if as_dicts:
@@ -36,6 +36,9 @@ def catalog(as_dicts=False, legacy_meta=False, default_ns=True, api=False, ts=Fa
     preds = [
         {'name': 'pred', 'integration_name': 'mindsdb', 'to_predict': ['p']},
         {'name': 'pred2', 'integration_name': 'proj', 'to_predict': ['p2']},
+        # a model whose target name CONTAINS the names of its input columns x, y, z; the target is supplied as a one-element list, a plain
+        # string, or a list of several targets (target_form 0 / 1 / 2)
+        {'name': 'predx', 'integration_name': 'mindsdb', 'to_predict': (['xyz_p'], 'xyz_p', ['w', 'xyz_p'])[target_form]},
     ]
     if ts:
         preds.append({'name': 'tspred', 'integration_name': 'mindsdb', 'timeseries': True, 'window': 3, 'horizon': 2,
